@@ -147,6 +147,10 @@ def judge(case, records, app):
         # ---------------- C03: a faulted turn
         if rec["raised"] is not None:
             P("C03", t, "generate-raised", "%s: %s" % (type(rec["raised"]).__name__, rec["raised"]))
+            if not case.get("fault"):
+                # no fault was injected: a valid conversation made generate raise - no rail property holds for that turn
+                P("C01", t, "generate-raised-without-fault", "%s: %s" % (type(rec["raised"]).__name__, rec["raised"]))
+                P("C02", t, "generate-raised-without-fault", "%s: %s" % (type(rec["raised"]).__name__, rec["raised"]))
             break
         content = reply.get("content") if isinstance(reply, dict) else None
         wellformed = isinstance(reply, dict) and reply.get("role") in ("assistant", "exception") and (isinstance(content, (str, dict)) or content is None)
